@@ -15,12 +15,20 @@ Tie (harness/h_thr.c, every run):
      PE, ELF, empty, random), per-scanner externals, module data, callback aborts/errors, timeouts, memory-mapped files
      truncated under the scan (SIGBUS recovered by libyara's handler while other threads scan): every thread's trace
      equals the trace of the same job run alone.
+ (b') every callback message that carries a pointer is compared BY CONTENT with the solo run: console.log / console.hex in
+     all eight forms (int, string, float, message+value) with a different value per scanner (externals id / fid / sid,
+     different file sizes), module names / module objects / module data, rule + tags + metas + strings + matched bytes,
+     the YR_STRING of CALLBACK_MSG_TOO_MANY_MATCHES (a million matches).  Free running with hundreds of repetitions
+     per thread AND deterministically: thread A is parked inside its k-th callback of a kind (every console message in
+     turn) before it reads the message, thread B completes a whole scan with other values, then A reads.
  (c) handler protocol: all threads are stopped inside callbacks (inside / outside a try section, with / without
      SCAN_FLAGS_NO_TRYCATCH); exception_handler_usecount, the SIGBUS disposition and the TLS slot are read and compared
      with the extracted model run on an interleaving of the same per-thread prefixes; a sampler thread checks
      installed == (count > 0) under the mutex all the time; after every run: count 0, original handler.
- (d) the same workload under ThreadSanitizer (thorough tier, or whenever the tsan build of this tree is cached): a
-     report with a frame inside libyara is a violation."""
+ (d) the same workload (console rules and parked interleavings included) under ThreadSanitizer, in both tiers (the tsan
+     build of a tree is cached; cold it costs about half a minute): a report with a frame inside libyara is a
+     violation.  A static buffer in a module's .bss is invisible to the frame monitor: the globals diff, (b') and
+     ThreadSanitizer are what see it (model: module_static_buffer_refutes_noninterference)."""
 import os, re, json, subprocess, hashlib
 import vlib, build, protolib
 
@@ -120,12 +128,28 @@ rule t3 { strings: $r = /a(b|c)*a/ $w = /\\bca+\\b/ condition: #r > ext_i or $w 
 rule t4 { strings: $a = "ca" condition: #a > 3 and @a[2] > @a[1] and !a[1] == 2 }
 rule t5 { condition: filesize == 0 or uint8(filesize - 1) == 0x61 }
 '''),
+    "console": (["ext i id 0", "ext f fid 0.5", "ext s sid none"], b'''
+import "console"
+rule c_int { condition: console.log(id) and console.hex(id) }
+rule c_int_expr { condition: console.log(id + filesize) and console.hex(filesize * 3 + id) }
+rule c_msg_int { condition: console.log("id=", id) and console.hex("hid=", id) }
+rule c_str { condition: console.log(sid) and console.log("sid=", sid) }
+rule c_float { condition: console.log(fid) and console.log("fid=", fid) }
+rule c_size { condition: console.log(filesize) and console.hex(filesize) and console.log("fs=", filesize) }
+rule c_tagged : t1 t2 { meta: a = "x" b = 7 c = true strings: $a = "abc" condition: $a and console.log(#a) and console.hex(@a[1]) }
+'''),
+    "many": ([], b'''
+rule many : big { meta: why = "cap" strings: $a = "XX" condition: #a > 10 }
+rule slow { strings: $b = /X/ condition: $b }
+'''),
 }
+GENERIC = ("mix", "strings")          # rule sets driven by gen_jobs; the others have their own job lists
+N_CONSOLE_MSGS = 15                   # console messages of one scan of the "console" rule set when $a is present
 
 
 def job_line(j):
     parts = ["mode=%s" % j["mode"], "buf=%d" % j["buf"], "flags=%d" % j.get("flags", 0), "reps=%d" % j.get("reps", 1)]
-    for k in ("timeout", "tns", "disable", "trunc", "nested", "rdv", "moddata"):
+    for k in ("timeout", "tns", "disable", "trunc", "nested", "rdv", "moddata", "park", "parkn", "release"):
         if k in j:
             parts.append("%s=%s" % (k, j[k]))
     if "abort" in j:
@@ -246,7 +270,8 @@ def run(chk):
     cases, meta = [], {}
 
     # ------------------------------------------------------------------ (a)+(b) workload per rule set
-    for rsname, (exts, src) in RULESETS.items():
+    for rsname in GENERIC:
+        exts, src = RULESETS[rsname]
         has_mod = rsname == "mix"
         jobs = gen_jobs(rng.fork(), len(bufs), nfile_from, 24 if quick else 60, has_mod)
         if has_mod:     # one of each ending, whatever the seed: SIGBUS recovered (file and rules level), timeout, abort, callback error
@@ -272,9 +297,87 @@ def run(chk):
                 plan.append(("conc", sel))
         cmds.append("run 1 " + " ".join([str(stress)] * 32))
         plan.append(("stress", [stress] * 32))
+        if has_mod:
+            # deterministic interleaving: A is held inside a callback BEFORE it reads what the message points to (module name,
+            # module object, rule + strings + matched bytes) while B completes a whole scan with other inputs
+            rel = len(jobs)
+            jobs.append({"mode": "scanner", "buf": nfile_from, "flags": 0, "reps": 1, "release": 1,
+                         "ext": [("ext_i", "i", "3"), ("ext_s", "s", "thrB")], "moddata": "thrB"})
+            cmds.append(job_line(jobs[-1]))
+            cmds.append("run 1 %d" % rel)
+            plan.append(("ref", [rel]))
+            for kind, kn in (("I", 0), ("I", 5), ("D", 1), ("D", 6), ("M", 0), ("M", 4), ("C", 0), ("C", 1)):
+                jobs.append({"mode": "scanner", "buf": 0, "flags": 0, "reps": 1, "park": kind, "parkn": kn,
+                             "ext": [("ext_i", "i", "9"), ("ext_s", "s", "thrA")], "moddata": "thrA"})
+                cmds.append(job_line(jobs[-1]))
+                a = len(jobs) - 1
+                cmds += ["run 1 %d" % a, "run 1 %d %d" % (a, rel)]
+                plan += [("ref", [a]), ("park", [a, rel])]
         cid = "w_" + rsname
         cases.append((cid, cmds))
         meta[cid] = (jobs, plan, cmds)
+
+    # ------------------------------------------------------------------ (b') messages that carry a pointer: console.log / console.hex
+    # in all their forms with a different value per scanner (external id / fid / sid, different file sizes), free running
+    # with many repetitions and with the deterministic interleaving at every single console message
+    exts, src = RULESETS["console"]
+    small = [i for i, b in enumerate(bufs) if b[0].startswith("buf ")]
+    R = 400 if quick else 3000
+    jobs = []
+    for i in range(8):
+        jobs.append({"mode": "scanner" if i % 4 else "fd", "buf": small[i % len(small)], "flags": 0, "reps": R,
+                     "ext": [("id", "i", str(1000003 * (i + 1))), ("fid", "f", "%d.5" % (i + 1)), ("sid", "s", "thr%d" % i)]})
+    for i in range(4):
+        jobs.append({"mode": "rules" if i % 2 else "rfile", "buf": [small[0], small[3], small[4], nfile_from][i], "flags": 0, "reps": R})
+    cmds = watch + exts + ["rules " + vlib.hx(src)] + [b[0] for b in bufs] + [job_line(j) for j in jobs]
+    plan = []
+    for ji in range(len(jobs)):
+        cmds.append("run 1 %d" % ji)
+        plan.append(("ref", [ji]))
+    r5 = rng.fork()
+    for n in (2, 8, 32):
+        for rep in range(2 if quick else 4):
+            sel = [r5.below(len(jobs)) for _ in range(n)]
+            if rep == 0:
+                sel = list(range(min(n, len(jobs)))) + sel[len(jobs):]       # pairwise different values
+            cmds.append("run 1 " + " ".join(map(str, sel)))
+            plan.append(("conc", sel))
+    rel = len(jobs)
+    jobs.append({"mode": "scanner", "buf": small[3], "flags": 0, "reps": 1, "release": 1,
+                 "ext": [("id", "i", "2222"), ("fid", "f", "22.25"), ("sid", "s", "BBBB")]})
+    cmds += [job_line(jobs[-1]), "run 1 %d" % rel]
+    plan.append(("ref", [rel]))
+    for k in range(N_CONSOLE_MSGS):
+        jobs.append({"mode": "scanner", "buf": small[0], "flags": 0, "reps": 1, "park": "C", "parkn": k,
+                     "ext": [("id", "i", "1111"), ("fid", "f", "11.75"), ("sid", "s", "AAAA")]})
+        a = len(jobs) - 1
+        cmds += [job_line(jobs[-1]), "run 1 %d" % a, "run 1 %d %d" % (a, rel)]
+        plan += [("ref", [a]), ("park", [a, rel])]
+        if k % 5 == 0:                                                        # ... and with free running threads around
+            cmds.append("run 1 %d %d 1 2 3 8" % (a, rel))
+            plan.append(("park", [a, rel, 1, 2, 3, 8]))
+    cases.append(("w_console", cmds))
+    meta["w_console"] = (jobs, plan, cmds)
+
+    # CALLBACK_MSG_TOO_MANY_MATCHES (the YR_STRING of the shared rules) with a million matches per string
+    exts, src = RULESETS["many"]
+    xtxt = os.path.join(DATA, "x.txt")
+    if os.path.exists(xtxt):
+        jobs = [{"mode": "scanner", "buf": 0, "flags": 0, "reps": 1}, {"mode": "rfile", "buf": 0, "flags": 0, "reps": 1},
+                {"mode": "scanner", "buf": 1, "flags": 0, "reps": 1, "release": 1},
+                {"mode": "scanner", "buf": 0, "flags": 0, "reps": 1, "park": "T", "parkn": 1}]
+        cmds = exts + ["rules " + vlib.hx(src), "buffile " + xtxt, "buf " + vlib.hx(b"XXXX")] + [job_line(j) for j in jobs]
+        plan = []
+        for ji in range(len(jobs)):
+            cmds.append("run 1 %d" % ji)
+            plan.append(("ref", [ji]))
+        cmds += ["run 1 0 1", "run 1 3 2"]
+        plan += [("conc", [0, 1]), ("park", [3, 2])]
+        if not quick:
+            cmds.append("run 1 0 1 0 1")
+            plan.append(("conc", [0, 1, 0, 1]))
+        cases.append(("w_many", cmds))
+        meta["w_many"] = (jobs, plan, cmds)
 
     # ------------------------------------------------------------------ (c) rendezvous
     exts, src = RULESETS["mix"]
@@ -354,7 +457,7 @@ def run(chk):
                     continue
                 n_traces += 1
                 if trace != ref.get(ji):
-                    chk.violation("interference", "thread %d of %d (job %s) reports something else than the same scan run alone:\n  "
+                    chk.violation("interference" + (":console-message" if cid == "w_console" else ":parked" if kind == "park" else ""), "thread %d of %d (job %s) reports something else than the same scan run alone:\n  "
                                   "concurrent: %s\n  alone:      %s" % (idx, run_["n"], jobs[ji], trace[:700], (ref.get(ji) or "")[:700]),
                                   dict(rp, job=jobs[ji], concurrent=trace[:6000], alone=(ref.get(ji) or "")[:6000], threads=run_["n"]))
                 j = jobs[ji]
@@ -442,40 +545,47 @@ def run(chk):
 
     # ------------------------------------------------------------------ (d) ThreadSanitizer
     tsan_cached = os.path.exists(os.path.join(build.CACHE, "%s-tsan" % build.tree_hash(), "libyara.a"))
-    if not quick or tsan_cached:
+    if True:      # also in the quick tier (the tsan build of a tree is cached; a cold build costs about half a minute): a static
+        # buffer in a module's .bss is outside the rules (frame monitor) - the globals diff and ThreadSanitizer see it
         ht = build.harness("h_thr", "tsan", extra_flags=WRAP)
         tcases = []
         for cid, (jobs, plan, cmds) in meta.items():
+            if cid == "w_many":
+                continue
             exts_, src_ = RULESETS[cid[2:]]
             tj = [dict(j, reps=min(j.get("reps", 1), 20)) for j in jobs]
             tc = ["track 0"] + exts_ + ["rules " + vlib.hx(src_)] + [b[0] for b in bufs] + [job_line(j) for j in tj]
             for kind, sel in plan:
-                if kind != "ref" and len(sel) >= 8:
+                if kind != "ref" and (len(sel) >= 8 or (kind == "park" and cid == "w_console")):
                     tc.append("run 0 " + " ".join(map(str, sel)))
             tcases.append((cid, tc))
         env = dict(os.environ, TSAN_OPTIONS="halt_on_error=0 exitcode=0 report_signal_unsafe=0 history_size=4")
-        inp = []
-        for cid, lines_ in tcases:
-            inp += ["case " + cid] + lines_ + ["endcase"]
-        p = subprocess.run([ht, "600"], input="\n".join(inp) + "\n", stdout=subprocess.PIPE, stderr=subprocess.PIPE, text=True,
-                           timeout=3000, env=env)
-        reps = tsan_reports(p.stderr)
-        inlib = [r for r in reps if re.search(r"/libyara/|libyara\.a", r)]
-        obs["tsan"] = {"reports": len(reps), "reports_with_libyara_frames": len(inlib), "runs": sum(len([c for c in tc if c.startswith("run")]) for _, tc in tcases),
-                       "crashes": [l for l in p.stdout.split("\n") if l.startswith("crash")][:3]}
+        obs["tsan"] = {"reports": 0, "reports_with_libyara_frames": 0, "runs": 0, "crashes": [], "build_cached": tsan_cached}
         seen_k = set()
-        for r in inlib:
-            m = re.search(r"#0 (\S+) (\S+?):(\d+)", r)
-            key = "tsan:" + (m.group(1) if m else hashlib.sha256(r.encode()).hexdigest()[:8])
-            if key in seen_k:
-                continue
-            seen_k.add(key)
-            chk.violation(key, "ThreadSanitizer: %s" % r.split("\n")[0][:200] + " " + (m.group(0) if m else ""),
-                          {"harness": "h_thr", "variant": "tsan", "extra_flags": WRAP, "harness_commands": tcases[0][1], "report": r[:6000],
-                           "how": "TSAN_OPTIONS='halt_on_error=0 exitcode=0' <h_thr built with -fsanitize=thread> < commands"})
-        if obs["tsan"]["crashes"]:
-            chk.violation("tsan-crash", "the workload crashed under ThreadSanitizer: %s" % obs["tsan"]["crashes"],
-                          {"harness": "h_thr", "variant": "tsan", "harness_commands": tcases[0][1], "stderr": p.stderr[-3000:]})
+        for cid, tc in tcases:          # one process per workload, so that a report names the commands that produced it
+            p = subprocess.run([ht, "600"], input="\n".join(["case " + cid] + tc + ["endcase"]) + "\n", stdout=subprocess.PIPE,
+                               stderr=subprocess.PIPE, text=True, timeout=3000, env=env)
+            reps = tsan_reports(p.stderr)
+            inlib = [r for r in reps if re.search(r"/libyara/|libyara\.a", r)]
+            crashes = [l for l in p.stdout.split("\n") if l.startswith("crash")][:3]
+            obs["tsan"]["reports"] += len(reps)
+            obs["tsan"]["reports_with_libyara_frames"] += len(inlib)
+            obs["tsan"]["runs"] += len([c for c in tc if c.startswith("run")])
+            obs["tsan"]["crashes"] += crashes
+            for r in inlib:
+                m = re.search(r"#0 (\S+) (\S+?):(\d+)", r)
+                loc = re.search(r"Location is global '([^']+)'", r)
+                key = "tsan:" + (loc.group(1) if loc else m.group(1) if m else hashlib.sha256(r.encode()).hexdigest()[:8])
+                if key in seen_k:
+                    continue
+                seen_k.add(key)
+                chk.violation(key, "ThreadSanitizer (%s): %s %s%s" % (cid, r.split("\n")[0][:120], m.group(0) if m else "",
+                                                                     " - global '%s'" % loc.group(1) if loc else ""),
+                              {"harness": "h_thr", "variant": "tsan", "extra_flags": WRAP, "harness_commands": tc, "report": r[:6000],
+                               "how": "TSAN_OPTIONS='halt_on_error=0 exitcode=0' <h_thr built with -fsanitize=thread> < commands"})
+            if crashes:
+                chk.violation("tsan-crash", "the workload %s crashed under ThreadSanitizer: %s" % (cid, crashes),
+                              {"harness": "h_thr", "variant": "tsan", "extra_flags": WRAP, "harness_commands": tc, "stderr": p.stderr[-3000:]})
     else:
         obs["tsan"] = "skipped in the quick tier: no cached tsan build of this tree (runs in the thorough tier)"
 
@@ -492,6 +602,9 @@ def run(chk):
         "first write per page and run is reported by the frame monitor (the page is opened after the report)",
         "exception_handler_usecount / exception_handler_mutex / yr_trycatch_trampoline_tls are read through their (non-static) symbols",
         "Linux: libyara catches SIGBUS only (CATCH_SIGSEGV 0); the Windows variants of YR_TRYCATCH are not modelled",
+        "variables with static storage duration in libyara / its modules are shared state in the model (Model/Concurrent.v, 'What a scan "
+        "may write'); on the code they are outside the mprotect monitor: watched by the globals diff (symbols of libyara.a), by "
+        "ThreadSanitizer and through the content of the callback messages",
         "rand() in yr_scanner_create (canary), libc, libcrypto and pthread TLS are below the model: ThreadSanitizer observes them",
         "timeouts are forced with scanner->timeout = 1 ns (deterministic ERROR_SCAN_TIMEOUT at the first check); wall-clock behaviour is C15's",
     ]
